@@ -515,7 +515,9 @@ impl Python {
                         // Doc text must not be able to close the docstring it is written into.
                         indented_comments = comments
                             .iter()
-                            .map(|v| v.replace("\"\"\"", "\\\"\\\"\\\""))
+                            // A backslash in the text is a backslash, not the start of an escape
+                            // sequence of the (non-raw) string literal.
+                            .map(|v| v.replace('\\', "\\\\").replace("\"\"\"", "\\\"\\\"\\\""))
                             .map(|v| format!("{}{}", indent, v))
                             .collect::<Vec<String>>()
                             .join("\n"),
